@@ -112,6 +112,7 @@ func Load(dir string, overlay map[string][]byte) (*Program, error) {
 	prog.Build()
 	p.SSA = prog
 	p.AllFuncs = ssautil.AllFunctions(prog)
+	normaliseComparisons(p.AllFuncs)
 	p.TreeHash = treeHash(dir, p.Roots)
 	p.ResolveAnchors()
 	p.LoadSecs = time.Since(t0).Seconds()
@@ -455,3 +456,32 @@ func PkgRel(fn *ssa.Function) (string, bool) {
 
 // VTAIfBuilt returns the VTA graph only if a rule already needed it.
 func (p *Program) VTAIfBuilt() *callgraph.Graph { return p.vtaCG }
+
+// normaliseComparisons puts the constant operand of every comparison on the right ("nil == x" ->
+// "x == nil", "0 < n" -> "n > 0"). Comparisons have no effect and their operands are values
+// computed before, so the two forms are the same instruction; the rules then need to know one
+// form only, and a maintainer who writes the other one (benign variant X12) changes no verdict.
+func normaliseComparisons(fns map[*ssa.Function]bool) {
+	flip := map[token.Token]token.Token{token.EQL: token.EQL, token.NEQ: token.NEQ,
+		token.LSS: token.GTR, token.GTR: token.LSS, token.LEQ: token.GEQ, token.GEQ: token.LEQ}
+	for fn := range fns {
+		for _, b := range fn.Blocks {
+			for _, in := range b.Instrs {
+				bo, ok := in.(*ssa.BinOp)
+				if !ok {
+					continue
+				}
+				nop, isCmp := flip[bo.Op]
+				if !isCmp {
+					continue
+				}
+				_, xc := bo.X.(*ssa.Const)
+				_, yc := bo.Y.(*ssa.Const)
+				if xc && !yc {
+					bo.X, bo.Y = bo.Y, bo.X
+					bo.Op = nop
+				}
+			}
+		}
+	}
+}
